@@ -130,10 +130,12 @@ def gen_tree(rng: random.Random, rules: list[dict], inherited: list[dict], depth
         for _ in range(rng.choice([1, 1, 2, 3]) if holes else 1):
             row = P.inst(rng, r["pat"], extra=True)
             s = crude_slot(row, lv)
-            if s is None or s[0] is not r or (id(s[0]), s[1]) in slots or row in t:
+            # a row of a specific rule listed AFTER a generic sibling that also matches it belongs to the generic
+            # rule's slot (first match) - keep it: it is the row both rules match
+            if s is None or (id(s[0]), s[1]) in slots or row in t or (s[0] is not r and rng.random() < 0.3):
                 continue
             slots.add((id(s[0]), s[1]))
-            kids, inh = child_level(r, rules, inherited, row)
+            kids, inh = child_level(s[0], rules, inherited, row)
             t[row] = gen_tree(rng, kids, inh, depth + 1, density) if (kids or inh) and depth < 3 and rng.random() < 0.8 else {}
     if rng.random() < 0.15:
         t["unknown " + rng.choice(P.VAL)] = {} if rng.random() < 0.7 else {"unknown x": {}}
@@ -668,14 +670,18 @@ def judge(ctx, cases, outs, res):
 
     failing = {}
     disagree = {}
+    with_failing_clause = set()        # every case some step of which has a failing clause (whatever its signature)
     for i in sorted(res["flags"]):
         for k, fl in enumerate(res["flags"][i]):
             if fl["in_domain"]:
                 bad = [c for c in CLAUSES if not fl[c]]
                 if bad:
+                    with_failing_clause.add(i)
                     failing.setdefault("+".join(bad), (i, k, bad))
             if fl["in_domain_o"]:
                 bad = [c for c in CLAUSES_O if not fl[c]]
+                if bad:
+                    with_failing_clause.add(i)
                 if bad and not (fl["in_domain"] and any(not fl[c] for c in CLAUSES)):
                     st_ = outs[i]["steps"][k]
                     if ordered_retext(cases[i]["rules"], [], st_["old"], st_["new"]):
@@ -688,7 +694,9 @@ def judge(ctx, cases, outs, res):
     for sig, (i, k, bad) in failing.items():
         ctx.add_violation(core.Violation(signature="C01/" + sig, what="; ".join({**CLAUSES, **CLAUSES_O}[c] for c in bad),
                                          replay=dict(rep(i, k), clauses=bad)))
-    explained = {i for (i, _, _) in failing.values()}
+    # a case whose report is false is explained by its failing clause(s): each signature is reported once (first
+    # case), further cases of the same class are not a different defect
+    explained = {i for (i, _, _) in failing.values()} | with_failing_clause
     for i in res["bad"]:
         if i not in explained and not any(not all(fl[a] for a in AGREE) for fl in res["flags"].get(i, [])):
             ctx.add_violation(core.Violation(signature="C01/report", what="report_ok_o is false", replay=rep(i)))
